@@ -105,7 +105,7 @@ def _replay_lines(ctx):
 
 
 def run(ctx):
-    n = 26000 if ctx.quick else 1000000
+    n = 26000 if ctx.quick else 300000
     chunk = 4000
     rng = random.Random(ctx.seed)
     failing, dis = [], []
